@@ -146,7 +146,14 @@ func clusterRun(f []string) string {
 		case <-time.After(3 * time.Second):
 		}
 	}()
-	refreshes := func() uint64 { return counterMap("service." + p.Name() + ".")["upstream.slots_refresh.success_total"] }
+	var metric func(string) uint64
+	refreshes := func() uint64 {
+		// the refresh counters are created by the first refresh: look them up until they exist, then keep the handles
+		if metric == nil {
+			metric = counterHandles("service." + p.Name() + ".")
+		}
+		return metric("upstream.slots_refresh.success_total")
+	}
 	settle := func() { time.Sleep(70 * time.Millisecond) }
 	settle() // the routing table is loaded right after start
 	cl, err := hx.DialClient(p.Address())
@@ -359,7 +366,7 @@ func clusterRun(f []string) string {
 				time.Sleep(2 * time.Millisecond)
 			}
 			// several triggers may be queued behind one another (one per redirection): wait until the refresh loop is quiet
-			started := func() uint64 { return counterMap("service." + p.Name() + ".")["upstream.slots_refresh.total"] }
+			started := func() uint64 { refreshes(); return metric("upstream.slots_refresh.total") }
 			last, quiet := started(), 0
 			need := 13 + int(minRate/(2*time.Millisecond))
 			for k := 0; k < 1500 && quiet < need; k++ {
